@@ -35,6 +35,7 @@ struct Obj {
 	bool reporter_installed = false; int reporter_skip = 100;
 	bool broken = false;                // a violation left model and object out of sync: stop judging it
 	int from_file_chain = 0;            // how many write/read hops lie behind this object
+	std::map<std::string, Q> saved_obj;  // objective coefficients put aside by `chgobj save=1` (restored by `chgobj v=@`)
 	bool has_sos = false;               // read from a file with SOS sets (the round-trip laws of C08/C09 do not speak about those)
 };
 
@@ -74,8 +75,9 @@ private:
 	bool roundtrip_precondition(const LP &m);
 	std::string roundtrip_diff(const LP &want, const LP &got, bool native_ranges);
 	std::map<std::string, RefResult> ref_cache;
-	struct Outcome { std::string how, config; int status; Q value; int step; };
+	struct Outcome { std::string how, config; int status; Q value; int step; std::string note; };
 	std::map<std::string, std::vector<Outcome>> outcomes;   // C04: canonical LP -> definitive outcomes
+	std::map<std::string, std::vector<Outcome>> stuck;      // C04: canonical LP -> uninterrupted direct solves under default limits that ended non-definitive
 	const RefResult &truth(const LP &lp);
 	void end_of_history();
 	std::vector<std::pair<Obj *, std::string>> others_before;
